@@ -9,6 +9,67 @@ ALL = ["C%02d" % i for i in range(1, 21)]
 
 # id -> (category, technique, level text, level note, design ref)
 CHECKS = {
+    "C05": ("model_checking",
+            "explicit-state BFS over content x older-version pairs: every state of the composeinfo/images/treeinfo universes and rpms histories is down-converted to every older version and upgraded by the real library",
+            "For every state within k edits of the seeds and every older version the code distinguishes (composeinfo 0.0/0.2/0.3/0.4/"
+            "0.9/1.0/1.1, images 1.0/1.1, rpms 0.3/1.0/1.1, treeinfo 0.3/1.0/1.1) a down-converter written from the format documentation "
+            "produces the older document; every accepted document must expose the expected facts, be written as a current-version file "
+            "with the proper type, re-load to an identical observation and re-dump byte-identically; plus all 73 fixtures under tests/.",
+            "Trusts mc/models/legacy.py; rejections and inexpressible shapes are counted per (format, version) and a version without any "
+            "accepted document fails the run as vacuous; generated 0.0 treeinfos are covered via C17, here 0.0 comes from fixtures.",
+            "DESIGN.md section 5, C05"),
+    "C06": ("exploration",
+            "bounded-exhaustive single corruption of valid objects: base x every field position x every value of the field's corruption alphabet, against a reference validator table; converse over the k=1 universes",
+            "Every (base object, field position, out-of-domain value) triple - all variants of a forest incl. layered-product releases, "
+            "all 15 attributes of every image in every cell, all treeinfo sections, discinfo - must make dumps() raise TypeError/"
+            "ValueError; conversely every state within one edit of the composeinfo/images/treeinfo seeds and every documented tree arch "
+            "must be written.",
+            "Trusts mc/models/validator_table.py (transcribed from doc/ and the property text); exactly one corrupted field per object.",
+            "DESIGN.md section 5, C06"),
+    "C07": ("exploration",
+            "bounded-exhaustive single corruption of valid documents (value replacement, header type swap, version mangling, required key/section deletion) against the reference validator table",
+            "Every validated value position of every base document of all 7 formats x its corruption alphabet, every foreign header "
+            "type at 1.1/1.2/2.0, 7 mangled versions and every required key/section deletion must make loads() raise; where the reader "
+            "coerces (bool/int/lower) the loaded object must be writable and carry an in-domain value at that position.",
+            "Trusts mc/models/validator_table.py and the required-key lists in mc/checks/c07.py; one corruption per document.",
+            "DESIGN.md section 5, C07"),
+    "C08": ("model_checking",
+            "enumeration of all construction-order permutations of each unordered part, all iteration orders of every library-created set (shadowed `set`), real PYTHONHASHSEED values in separate interpreters, repeated dumps; independent format lint",
+            "For 10 contents with >= 3 elements in every unordered part, every permutation of each part (pairs of parts in the thorough "
+            "tier), 24/48 set-iteration policies while building and while loading, hash seeds 0..3/0..31 in separate interpreters and 3 "
+            "successive dumps must give the bytes of the canonical-order build; JSON must be in sorted-keys 4-space form, INI sections and "
+            "options sorted, caller-ordered lists unchanged; content reached through a re-loaded object must dump like the same content "
+            "built from scratch.",
+            "The set seam relies on the library looking up the global name `set`; hash seeds influence output only through hash-ordered "
+            "containers (argument in DESIGN.md).",
+            "DESIGN.md section 5, C08"),
+    "C16": ("exploration",
+            "grid of file sizes around the 1 MiB chunk x every hashlib algorithm x read schedules (one short read at every read index through a shadowed open) against hashlib one-shot digests; all ordered [checksums] sections over 9 value shapes; all add_checksum histories of depth <= 4",
+            "compute_checksum must equal the one-shot digest for every size/algorithm/read schedule; Checksums.add must record under the "
+            "normalised relative path and refuse absolute paths; every [checksums] section of <= 2 (quick) / 3 (thorough) entries must map "
+            "each path to its own line's type and value or be rejected; over all 4 680 add_checksum histories a recorded value never changes "
+            "and a conflicting value raises ValueError.",
+            "File content is a 251-periodic pattern; the short-read seam relies on compute_checksum calling the module-level open().",
+            "DESIGN.md section 5, C16"),
+    "C19": ("model_checking",
+            "explicit-state exploration of the product automaton of every regular expression the library uses (exponential-ambiguity criterion, all input lengths) + step-counting backtracking matcher bound to the real engine on all short strings + pumped families, suspicions confirmed in the real engine",
+            "The inventory (25 patterns, recorded at run time in a fresh interpreter and by AST scan) is analysed pattern by pattern: "
+            "epsilon-NFA, position graph and product automaton explored for two distinct paths over one word; a step-counting matcher agrees "
+            "with re on every string of length <= 5/6 over the class alphabet (match end and all groups); all pump families up to length "
+            "48; a violation is reported only when the real engine confirms super-polynomial growth or a <= 48-character input needs > 2 s; "
+            "21 entry-point probes with pumped values in killable subprocesses.",
+            "Cost model is CPython's sre; anchors/look-arounds are epsilon in the analysis (over-approximation guarded by the real-engine "
+            "confirmation); polynomial degree is reported, not judged.",
+            "DESIGN.md section 5, C19"),
+    "C20": ("model_checking",
+            "enumeration of directory configurations (layouts x file presence under current/legacy names x trailing slash x broken file x every os.listdir permutation) and accessor sequences against a decision-list model, file opens counted through a shadowed open",
+            "About 1 500 on-disk configurations are opened with the real Compose class; resolved location, source file of every accessor "
+            "(each file carries a distinct compose id), equality with a direct load, object identity and zero file opens on re-access, "
+            "RuntimeError texts for missing and undecodable files are compared with the model; all 84 / 340 accessor sequences of length <= "
+            "3 / 4 on four configurations.",
+            "Precedence is only stated for compose/ over the direct layout: for other coexisting layouts any location holding metadata is "
+            "allowed; HTTP locations out of scope.",
+            "DESIGN.md section 5, C20"),
     "C03": ("model_checking",
             "history BFS over valid add calls (rpms / modules / extra files) with a lockstep layout model; write->read->write at every reachable state against the model",
             "Every sequence of valid adds up to depth 4 (quick) / 6 (thorough) from the C12 menus is replayed on a fresh real object "
